@@ -1,5 +1,5 @@
 # stub of the cython-sgio binding.  Assumed contract of sgio.execute(file, cdb, dataout, datain):
-#   returns normally  iff the target reported GOOD;
+#   returns normally  iff the target reported GOOD (the return value is None or a residual byte count: unspecified);
 #   raises CheckConditionError(sense) iff it reported CHECK CONDITION (sense = the sense bytes it sent);
 #   raises some other exception (here: OSError) for every other status or transport failure;
 #   may overwrite the contents of datain in place; touches nothing else;
